@@ -140,7 +140,7 @@ func pairsCovered() int {
 func TestP1Eexec(t *testing.T) {
 	rec := ev.New("C05", "eexec")
 	defer rec.Finish(t)
-	rec.Rule("plaintext: probes that observe systemdict on the dictionary stack (`/eexecprobe 42 def`, `currentdict /add known`), a data program from the C02 generator run inside `userdict begin`, 0-3 binary payloads read with `n string currentfile exch readstring <sep><n bytes> pop` or through an RD procedure `n RD <sep><n bytes>` (one separator byte, then n arbitrary bytes, n up to 1500 so that sections straddle the scanner's 512-byte buffer), optionally dictionaries left on the dictionary stack; ending in `mark currentfile closefile` + one white-space byte (then clear-text trailer: 0-600 zeros in lines, cleartomark, further tokens) or running to the end of input. Encrypted by the harness cipher; the four leading cipher bytes are drawn (any for hex; for binary: first byte not white space and one of the four not a hex digit, corner values included); laid out as hex (digit case per digit, white space of all kinds at any position after the first four digits, any line width) or binary; 0-3 white-space bytes between `eexec` and the section. Oracle: same interpreter fed `pre systemdict begin <plaintext> [mark] end... <trailer>`: canonical state (stack incl. the strings read, dict stack, userdict, additions to systemdict, FontDirectory, resources) equal and both runs without error. Non-trivial: section >= 20 plaintext bytes and one of {binary form, interior white space, upper-case hex, payload with a byte < 32 or >= 128, trailer executed after closefile}; distinct by file bytes.")
+	rec.Rule("plaintext: probes that observe systemdict on the dictionary stack (`/eexecprobe 42 def`, `currentdict /add known`), a data program from the C02 generator run inside `userdict begin`, 0-3 binary payloads read with `n string currentfile exch readstring <sep><n bytes> pop` or through an RD procedure `n RD <sep><n bytes>` (one separator byte, then n arbitrary bytes, n up to 1500 so that sections straddle the scanner's 512-byte buffer), optionally dictionaries left on the dictionary stack; ending in `mark currentfile closefile` + one white-space byte (then clear-text trailer: 0-600 zeros in lines, cleartomark, further tokens) or running to the end of input. Encrypted by the harness cipher; the four leading cipher bytes are drawn (any for hex; for binary: first byte not white space and one of the four not a hex digit, corner values included); laid out as hex (digit case per digit, white space of all kinds at any position after the first four digits, any line width) or binary; 0-3 white-space bytes between `eexec` and the section; clear text before the section padded so that the section starts at any offset, half of the time within 12 bytes of a multiple of 512 (the scanner's buffer size). Oracle: same interpreter fed `pre systemdict begin <plaintext> [mark] end... <trailer>`: canonical state (stack incl. the strings read, dict stack, userdict, additions to systemdict, FontDirectory, resources) equal and both runs without error. Non-trivial: section >= 20 plaintext bytes and one of {binary form, interior white space, upper-case hex, payload with a byte < 32 or >= 128, trailer executed after closefile}; distinct by file bytes.")
 	rec.Assume("decryption correctness is independent of the library: the cipher text comes from the harness implementation of the Adobe algorithm (t1ref.Encrypt, key 55665, c1 52845, c2 22719)")
 	cfg := psgen.Config{TypeLiteral: true}
 	ev.SetupRapid(12000, 480000)
@@ -149,6 +149,21 @@ func TestP1Eexec(t *testing.T) {
 		var feat []string
 		if rapid.Bool().Draw(t, "pre") {
 			c.Pre = []byte("/before (x) def 3 dict begin /inner 7 def\n")
+		}
+		// padding moves the start of the section to any offset, with emphasis
+		// on the neighbourhood of the scanner's 512-byte buffer boundary
+		switch rapid.IntRange(0, 3).Draw(t, "padkind") {
+		case 0:
+		case 1:
+			c.Pre = append(c.Pre, []byte("% "+strings.Repeat("x", rapid.IntRange(0, 1100).Draw(t, "pad"))+"\n")...)
+		default:
+			want := rapid.IntRange(500, 524).Draw(t, "sectionoffset") + 512*rapid.IntRange(0, 1).Draw(t, "block")
+			gap := 2 // typical gap length; the drawn gap moves it by a byte or two
+			n := want - len(c.Pre) - len("currentfile eexec") - gap - 3
+			if n > 0 {
+				c.Pre = append(c.Pre, []byte("% "+strings.Repeat("y", n)+"\n")...)
+				feat = append(feat, "section-at-buffer-boundary")
+			}
 		}
 		var plain bytes.Buffer
 		plain.WriteString("/eexecprobe 42 def currentdict /add known\n")
